@@ -65,6 +65,7 @@ type c14Case struct {
 	Trig    string `json:"trig"`   // "time" (virtual ns) | "started" | "finished" (count of hand-offs) | "yields" (scheduler yields of the injector)
 	At      int    `json:"at"`
 	Who     int    `json:"who"` // cancel: caller whose context is cancelled, -1 = all
+	DelayMs []int  `json:"delay_ms,omitempty"` // per caller: virtual milliseconds before it calls RunJobs (an idle group in between)
 	Obs     c14Obs `json:"obs"`
 }
 
@@ -313,6 +314,9 @@ func runC14Case(t *testing.T, c *c14Case) {
 		}
 		for i := 0; i < nc; i++ {
 			go func(i int) {
+				if i < len(c.DelayMs) && c.DelayMs[i] > 0 {
+					time.Sleep(time.Duration(c.DelayMs[i]) * time.Millisecond)
+				}
 				eng.run(ctxs[i], i, c.Jobs[i], mkJob(i), recs[i])
 				returned[i].Store(true)
 			}(i)
@@ -402,6 +406,13 @@ func c14Boundary(tier string) []c14Case {
 		add(c14Case{Family: "v2-close-yields", Target: "v2", Workers: 4, Queue: 10, Jobs: []int{60, 60}, Mode: "stop", Trig: "yields", At: at}, 3)
 		add(c14Case{Family: "v3-cancel-handoff", Target: "v3", Workers: 2, Queue: 10, Jobs: []int{40, 40}, Mode: "cancel", Trig: "finished", At: at + 1, Who: 0}, 1)
 	}
+	// a long job keeps one worker busy while the group is otherwise idle for seconds; then a burst arrives: no more
+	// job functions at once than workers, whatever the group did with its idle workers in between
+	for _, w := range []int{1, 2, 4} {
+		add(c14Case{Family: "long-job-idle-then-burst", Target: "group", Workers: w, Queue: 10, Jobs: []int{1, 12}, DurUs: 3_000_000, DelayMs: []int{0, 2500}, Mode: "none"}, 1)
+		add(c14Case{Family: "long-job-idle-then-burst", Target: "group", Workers: w, Queue: 10, Jobs: []int{w, 9, 9}, DurUs: 2_000_000, DelayMs: []int{0, 1500, 4200}, Mode: "none"}, 1)
+	}
+	add(c14Case{Family: "long-job-idle-then-burst-v3", Target: "v3", Workers: 2, Queue: 10, Jobs: []int{10, 40}, DurUs: 3_000_000, DelayMs: []int{0, 2500}, Mode: "none"}, 1)
 	add(c14Case{Family: "v3-plain", Target: "v3", Workers: 4, Queue: 10, Jobs: []int{25, 3, 0}, Mode: "none"}, 2)
 	add(c14Case{Family: "v2-plain", Target: "v2", Workers: 4, Queue: 10, Jobs: []int{25, 3, 0}, Mode: "none"}, 2)
 	return cs
